@@ -452,7 +452,11 @@ func (group *Group) delIn() {
 		session.ShouldWaitVideoKeyFrame = false
 	}
 	for session := range group.rtspSubSessionSet {
-		session.ShouldWaitVideoKeyFrame = false
+		// a session that has not sent PLAY yet has not started: HandleNewRtspSubSessionPlay decides for it, against
+		// the stream that is there then
+		if session.Stage.Load() == rtsp.SubSessionStageReadPlay {
+			session.ShouldWaitVideoKeyFrame = false
+		}
 	}
 
 	group.rtmpGopCache.Clear()
